@@ -513,5 +513,6 @@ fn bdamage_name(d: &BDamage) -> &'static str {
         BDamage::BecomeDir => "become_dir",
         BDamage::CrBeforeLf(_) => "crlf_terminated_record",
         BDamage::GarbageTail { .. } => "long_garbage_tail",
+        BDamage::BecomeSymlink => "bucket_is_a_symlink",
     }
 }
